@@ -4,7 +4,8 @@
 
    Modelled panic sites ([Stuck]): the asserts / `unreachable!()` of pack_bits_block and
    unpack_bits_block (width outside 1..=63, block length), index out of bounds and shift >= 64 in
-   BitPacker / BitUnpacker, `entry - previous` underflow in compute_entry_bits / serialize_v4. *)
+   BitPacker / BitUnpacker, `entry - previous` underflow in compute_entry_bits / serialize_v4; running
+   out of fuel in the block loops of the model is Stuck as well (excluded by the same theorems). *)
 From DS Require Import Base.Prelude Base.BitExp Model.Theta Model.ThetaCodec Spec.ThetaLayout.
 From DS Require Import Proofs.ThetaCodec.
 Open Scope N_scope.
@@ -20,6 +21,28 @@ Theorem c14_theta_ok_is_usable :
   forall sh bs c, bytes_lt bs -> c_deserialize sh bs = Ok c ->
   c_safe c /\ (length (ce_entries c) <= 8 * length bs)%nat.
 Proof. exact deserialize_ok_safe. Qed.
+
+(* dec_ok_wf in full: the value is well-formed for both writers (entries in (0, theta), theta in
+   [1, 2^63-1], ascending when ordered, EMPTY only without entries and with theta = 2^63-1, seed hash the
+   reader's unless empty, fewer than 2^32 entries), hence survives serialize / serialize_compressed
+   followed by deserialize unchanged (Props/C11_theta.v) *)
+Theorem c14_theta_ok_is_wf :
+  forall sh bs c, sh < 65536 -> bytes_lt bs -> c_deserialize sh bs = Ok c -> c_wf sh c.
+Proof. exact deserialize_ok_wf. Qed.
+
+(* allocation, independently of the outcome: the reader allocates in two places only, each behind a
+   length test -- Vec::with_capacity(num_entries) in read_entries, vec![0u64; num_entries] in
+   deserialize_v4 -- and whenever the test in front of it has passed (whatever happens afterwards, Ok or
+   Err) the request is bounded by the bytes that remain: 8 * num_entries <= len resp. num_entries <= 8 * len.
+   (The model has no allocator; these are the two guards as they appear in Model/ThetaCodec.v, and the
+   harness's counting allocator observes every outcome.) *)
+Theorem c14_theta_read_entries_guard :
+  forall num_entries len, (len / 8 <? num_entries) = false -> 8 * num_entries <= len.
+Proof. exact read_entries_guard. Qed.
+
+Theorem c14_theta_v4_guard :
+  forall cnt eb len, 1 <= eb -> (len <? cnt / 8 * eb + (cnt mod 8 * eb + 7) / 8) = false -> cnt <= 8 * len.
+Proof. exact v4_guard. Qed.
 
 (* wf_ops_safe: a usable value re-serializes both ways without reaching a panic site (D12) *)
 Theorem c14_theta_usable_reserializes :
@@ -37,6 +60,8 @@ Example c14_theta_example :
   c_deserialize 12345 [3; 3; 3; 0; 0; 26; 57; 48; 0; 0; 0; 0; 0; 0; 0; 0; 0; 0; 0; 0; 0; 0; 0; 0] = Err /\
   (* a count of 2^32-1 entries with 8 bytes of payload *)
   c_deserialize 12345 ([2; 3; 3; 0; 0; 10; 57; 48; 255; 255; 255; 255; 0; 0; 0; 0] ++ le_bytes 8 5) = Err /\
+  (* serVer 4 flagged EMPTY with two entries (entry_bits 7, entries 100 and 127) *)
+  c_deserialize 12345 [1; 4; 3; 7; 1; 30; 57; 48; 2; 200; 216] = Err /\
   (* and a valid image is accepted *)
   c_deserialize 12345 ([2; 3; 3; 0; 0; 26; 57; 48; 2; 0; 0; 0; 0; 0; 0; 0] ++ le_bytes 8 100 ++ le_bytes 8 200)
     = Ok (mkC [100; 200] MAX_THETA 12345 true false).
